@@ -214,10 +214,15 @@ def gen_tables(ctx):
     if rc != 0:
         ctx.violation("tables-gen", "unitdrv tables failed (a state object or flow interface changed shape)", out[-3000:], found_input=False, tag="gen")
         return False
+    # the front end's error switch, read from the source (package main cannot be linked)
+    rc, out = C.run([os.path.join(C.BUILD, "unitdrv"), "frontend", "-repo", C.REPO, "-dir", os.path.join(C.LEAN, "Rie", "Gen")], timeout=120)
+    if rc != 0:
+        ctx.violation("frontend-gen", "unitdrv frontend could not read InvokeHandler's error switch from cmd/aws-lambda-rie/handlers.go", out[-3000:], found_input=False, tag="gen")
+        return False
     return True
 
 
-def standard_check(ctx, prop, plan, monitors, theorems, corpus_dirs=(), rule="", extra_modules=("Rie.Props.Tables",), e2e=0):
+def standard_check(ctx, prop, plan, monitors, theorems, corpus_dirs=(), rule="", extra_modules=("Rie.Props.Tables", "Rie.Props.FrontEndTable"), e2e=0):
     thorough = ctx.tier == "thorough"
     ctx.trusted += ["correspondence: stackdrv (real rapidcore.SandboxBuilder stack in process, fake supervisor held to the C19 model, scripted HTTP actors, quiescent stepping) vs rie-oracle sys",
                     "regenerated state-machine tables (unitdrv tables) re-proved equal to the model programs by decide",
